@@ -372,7 +372,7 @@ def to_stiefel_euler(theta:np.ndarray|torch.Tensor, dim:int, rank:int, with_phas
     Returns:
         ret (np.ndarray,torch.Tensor): array of shape `theta.shape[:-1]+(dim,rank)`
     '''
-    assert (theta.ndim==1) or (theta.ndim==2)
+    assert theta.ndim>=1
     shape = theta.shape
     if theta.ndim==1:
         theta = theta.reshape(1, -1)
